@@ -23,6 +23,7 @@ mod h_c14;
 mod h_c10;
 mod h_c06;
 mod h_c20;
+mod h_storage;
 
 use std::io::{self, BufRead, Write};
 
@@ -37,6 +38,7 @@ fn main() {
     match args[1].as_str() {
         // line mode: one case per line on stdin, one result per line on stdout
         "lines" => lines(),
+        "storage-read" | "storage-write" => h_storage::main(&args[1..]),
         other => {
             eprintln!("unknown subcommand {}", other);
             std::process::exit(2);
